@@ -2,7 +2,7 @@ import BddVerif.Lemmas.SelectOrder
 import BddVerif.Lemmas.SelectCheck
 import BddVerif.Lemmas.SelectIs
 import BddVerif.Lemmas.SelectMostC
-import BddVerif.Lemmas.SelectNec2
+import BddVerif.Lemmas.SelectNec3
 /-!
 # C11 — witness and clause selectors return real, extremal members
 
@@ -110,17 +110,18 @@ theorem most_negative_spec {A : Arr} {n : Nat} (h : Can A n) :
   intro w hwl hw hc
   exact le_of_LexLe (by omega) (by rw [hlen]; exact hle (fn w) hw hc)
 
-/-- `most_fixed_clause` returns a path with the maximal number of decisions (= fixed variables) -/
+/-- `most_fixed_clause` returns a path of the diagram with the maximal number of fixed variables among all
+    paths (`IsPathClause A c`: `c` is the clause of some root-to-one path; `numFixed`: number of `Some` entries) -/
 theorem most_fixed_spec {A : Arr} {n : Nat} (h : Can A n) :
-    ∃ c ds, mostFixedClause A = Sel.some c ∧ IsPath A (root A) ds 1 ∧ (∀ k, getC c k = ds.lookup k) ∧
-      ∀ ds', IsPath A (root A) ds' 1 → ds'.length ≤ ds.length :=
-  most_fixed_clause_spec h
+    ∃ c, mostFixedClause A = Sel.some c ∧ IsPathClause A c ∧
+      ∀ c', IsPathClause A c' → numFixed c' ≤ numFixed c :=
+  most_fixed_clause_max h
 
-/-- `most_free_clause` returns a path with the minimal number of decisions (= fixed variables) -/
+/-- `most_free_clause` returns a path of the diagram with the minimal number of fixed variables among all paths -/
 theorem most_free_spec {A : Arr} {n : Nat} (h : Can A n) :
-    ∃ c ds, mostFreeClause A = Sel.some c ∧ IsPath A (root A) ds 1 ∧ (∀ k, getC c k = ds.lookup k) ∧
-      ∀ ds', IsPath A (root A) ds' 1 → ds.length ≤ ds'.length :=
-  most_free_clause_spec h
+    ∃ c, mostFreeClause A = Sel.some c ∧ IsPathClause A c ∧
+      ∀ c', IsPathClause A c' → numFixed c ≤ numFixed c' :=
+  most_free_clause_min h
 
 /-- `random_valuation` returns a satisfying valuation whatever the generator yields -/
 theorem random_valuation_sat {A : Arr} {n : Nat} (h : Can A n) (flips : List Bool) :
@@ -134,11 +135,18 @@ theorem random_clause_path {A : Arr} {n : Nat} (h : Can A n) (flips : List Bool)
   exact ⟨c, ds, hc, hp, hg⟩
 
 /-- `necessary_clause` returns a clause (it does not reach its `unreachable!()`), and every literal of it is
-    shared by all satisfying valuations -/
+    shared by all satisfying valuations (no reachability assumption) -/
 theorem necessary_clause_sound {A : Arr} {n : Nat} (h : Can A n) :
     ∃ c, necessaryClause A = Sel.some c ∧
       ∀ k b, getC c k = some b → ∀ w : Nat → Bool, den A w = true → w k = b :=
   Select.necessary_clause_sound h
+
+/-- `necessary_clause` is exactly the set of literals shared by all satisfying valuations (canonical diagram:
+    no unreachable node) -/
+theorem necessary_clause_exact {A : Arr} {n : Nat} (h : Can A n) (hno : NoOrphan A) :
+    ∃ c, necessaryClause A = Sel.some c ∧
+      ∀ k b, k < n → (getC c k = some b ↔ ∀ w : Nat → Bool, den A w = true → w k = b) :=
+  Select.necessary_clause_exact h hno
 
 /-- `is_clause` holds exactly when the function is a single cube -/
 theorem is_clause_spec {A : Arr} {n : Nat} (h : Can A n) :
@@ -170,5 +178,6 @@ example : necessaryClause exGap = Sel.some [] := by decide
 example : randomValuation exGap [true, false, true] = Sel.some [true, false, true, true, false] := by decide
 example : isClause exGap = some false ∧ isValuation exVal = some true ∧ isClause exVal = some true := by decide
 example : necessaryClause exVal = Sel.some [some true, some false, some true] := by decide
+example : mostFixedClause exGap = Sel.some [some false, none, none, some true] ∧ numFixed [some false, none, none, some true] = 2 := by decide
 
 end B.Props.C11
